@@ -199,6 +199,13 @@ func checkC14(p *Prog, rp *Report) {
 					if strings.HasPrefix(ef, "ctor:xz(") && !strings.HasSuffix(ef, ",0)") {
 						problems = append(problems, "xz is opened with a dictionary limit other than the default: "+ef)
 					}
+					if strings.HasPrefix(ef, "ctor:zstd(") {
+						for _, narrowing := range []string{"zstdopt:WithDecoderMaxWindow(", "zstdopt:WithDecoderMaxMemory("} {
+							if strings.Contains(ef, narrowing) {
+								problems = append(problems, "zstd is opened with an option that makes it refuse frames a legal compression level writes (dpkg-deb -Zzstd -z20..22 announce windows of 32 to 128 MiB): "+ef)
+							}
+						}
+					}
 					if strings.HasPrefix(ef, "tarnext:tar(") && strings.Contains(ef, "data.tar") {
 						dataProblems = append(dataProblems, "the loader reads from the data tar stream before handing it to the caller ("+ef+")")
 					}
@@ -523,12 +530,12 @@ func checkC16(p *Prog, rp *Report) {
 		fillProblems(r, "deb.Ar.Next", pos, b.problems["TRUNC"], "archives cut inside the data of their last member: the iteration fails, and not with an error that errors.Is takes for io.EOF")
 	}()
 	defer stateRule(p, rp, "C16-STATE", p.Func("deb", "Load"), p.Method("deb", "Deb", "CheckDebsig"))
-	rp.Explanation = "CheckDebsig is interpreted abstractly on a Deb whose member index holds debian-binary, control.tar.gz, data.tar.xz and _gpgorigin (plus decoys), with Seek, io.MultiReader and openpgp.CheckDetachedSignature replaced by recording oracles, over every iteration order of the member map. C16-ROLE: only the exact member \"_gpg\"+role is used as signature: an absent role, a prefix of a role and the empty role fail; a missing debian-binary fails. C16-STREAM: the signed data is MultiReader(debian-binary, control, data) in that order, each rewound with Seek(0,0) before, the signature is the role member's data, the keyring is the caller's, and the library's entity and error are returned unchanged; a second check of the same Deb against another keyring is verified again, against that keyring. C16-SAME: with a decoy control.* or data.* member verification fails in every iteration order, and the loader (same scenarios) fails too, so the verified members are the loaded members; repeated names are rejected by the loader."
-	rp.NotDecided = "the OpenPGP library; the bytes of the members (io.SectionReader); that the data member handed to the caller as Deb.Data is re-read from the start by the verifier."
+	rp.Explanation = "CheckDebsig is interpreted abstractly on a Deb whose member index holds debian-binary, control.tar.gz, data.tar.xz and _gpgorigin (plus decoys), with Seek, io.NewSectionReader, io.MultiReader and openpgp.CheckDetachedSignature replaced by recording oracles, over every iteration order of the member map. C16-ROLE: only the exact member \"_gpg\"+role is used as signature: an absent role, a prefix of a role and the empty role fail; a missing debian-binary fails. C16-STREAM: the signed data is MultiReader(debian-binary, control, data) in that order, each a reader of its own over the whole member (io.NewSectionReader(member, 0, size)), never the member's own reader, whose position belongs to the loader and to Deb.Data and is not moved, the signature is the role member's data, the keyring is the caller's, and the library's entity and error are returned unchanged; a second check of the same Deb against another keyring is verified again, against that keyring. C16-SAME: with a decoy control.* or data.* member verification fails in every iteration order, and the loader (same scenarios) fails too, so the verified members are the loaded members; repeated names are rejected by the loader."
+	rp.NotDecided = "the OpenPGP library; the bytes of the members (io.SectionReader)."
 	rp.Trusted = []string{"go/types, go/ssa", "golang.org/x/crypto/openpgp.CheckDetachedSignature", "io.MultiReader, io.SectionReader.Seek"}
 	fn := p.Method("deb", "Deb", "CheckDebsig")
 	role := rp.Rule("C16-ROLE", "signature member = \"_gpg\"+role by exact lookup; missing members are errors", 1)
-	stream := rp.Rule("C16-STREAM", "signed stream = debian-binary, control, data, each rewound; results returned unchanged", 1)
+	stream := rp.Rule("C16-STREAM", "signed stream = debian-binary, control, data, each whole and through a reader of its own; results returned unchanged", 1)
 	same := rp.Rule("C16-SAME", "decoy members make verification and loading fail in every iteration order", 1)
 	if fn == nil {
 		role.bad("deb.Deb.CheckDebsig", "", "method not found", nil)
@@ -586,28 +593,26 @@ func checkC16(p *Prog, rp *Report) {
 					continue
 				}
 				parts := strings.Split(o.verified[0], "|")
-				want := "multi(data(debian-binary#0)+data(control.tar.gz#1)+data(data.tar.xz#2))"
+				own := func(name string, k int) string { return fmt.Sprintf("section(data(%s#%d),0,%d)", name, k, 1000+k) }
+				want := "multi(" + own("debian-binary", 0) + "+" + own("control.tar.gz", 1) + "+" + own("data.tar.xz", 2) + ")"
 				if parts[0] != "the-keyring" {
 					streamP = append(streamP, "the signature is checked against "+parts[0]+", not the caller's keyring")
 				}
 				if parts[1] != want {
-					streamP = append(streamP, "the signed data is "+parts[1]+", want "+want)
+					if parts[1] == "multi(data(debian-binary#0)+data(control.tar.gz#1)+data(data.tar.xz#2))" {
+						streamP = append(streamP, "the signed data is read through the members' own readers ("+parts[1]+"), the ones Deb.Data decompresses from: the check moves them, so the payload handed out afterwards is cut short or, once rewound by a second check, is not the bytes that were verified; want a reader of its own over the whole of each member, "+want)
+					} else {
+						streamP = append(streamP, "the signed data is "+parts[1]+", want "+want)
+					}
 				}
-				if parts[2] != "data(_gpgorigin#3)" {
+				if parts[2] != "data(_gpgorigin#3)" && parts[2] != own("_gpgorigin", 3) {
 					streamP = append(streamP, "the signature is read from "+parts[2]+", want the _gpgorigin member")
 				}
-				for _, mname := range []string{"data(debian-binary#0)", "data(control.tar.gz#1)", "data(data.tar.xz#2)"} {
-					rewound := false
-					for _, e := range o.effects {
-						if e == "seek:"+mname+":0:0" {
-							rewound = true
+				for _, e := range o.effects {
+					for _, mname := range []string{"data(debian-binary#0)", "data(control.tar.gz#1)", "data(data.tar.xz#2)"} {
+						if strings.HasPrefix(e, "seek:"+mname+":") {
+							streamP = append(streamP, "the check moves the read position of "+mname+" ("+e+"), which belongs to the loader and to Deb.Data")
 						}
-						if strings.HasPrefix(e, "verify:") {
-							break
-						}
-					}
-					if !rewound {
-						streamP = append(streamP, mname+" is not rewound (Seek(0,0)) before verification: the loader has already read from it")
 					}
 				}
 			}
@@ -670,7 +675,7 @@ func checkC16(p *Prog, rp *Report) {
 		return
 	}
 	fillProblems(role, "deb.Deb.CheckDebsig", pos, roleP, "8 roles against a package signed as origin only; missing debian-binary")
-	fillProblems(stream, "deb.Deb.CheckDebsig", pos, streamP, "keyring, signed stream (order, rewinding), signature member and returned results, for a verifying and a failing library verdict")
+	fillProblems(stream, "deb.Deb.CheckDebsig", pos, streamP, "keyring, signed stream (order, own readers over whole members, no seek on the shared ones), signature member and returned results, for a verifying and a failing library verdict")
 	fillProblems(same, "deb.Deb.CheckDebsig", pos, sameP, "3 decoys and a repeated name: verification and loading fail in every iteration order")
 }
 
